@@ -82,6 +82,7 @@ type Play struct {
 	CurHand *h.Hand
 	Tainted string // set when a recorded finding was triggered: later events are not judged
 	Stalled bool
+	StopNow bool // set by a monitor to end the run at once (the current hand is abandoned)
 	EndedShort bool
 	PolicyName string
 	DeckName   string
@@ -583,6 +584,7 @@ func RunPlayCfg(c *h.Ctx, cfg h.TableCfg, po PlayOpts, mon *PlayMon) *Play {
 		p.midOps = 0
 		p.HandTopups = map[string]int64{}
 		sc := &h.Script{Policy: policyByName(p.PolicyName), MaxWait: wait, OnEvent: onEv}
+		sc.Stop = func() bool { return p.StopNow }
 		sc.BeforeAct = func(e *h.Ev, gp int, pid string) bool {
 			p.midOp()
 			if mon.BeforeAct != nil {
@@ -629,6 +631,9 @@ func RunPlayCfg(c *h.Ctx, cfg h.TableCfg, po PlayOpts, mon *PlayMon) *Play {
 		}
 		hd := ss.NextHand(sc)
 		p.CurHand = hd
+		if p.StopNow {
+			return p
+		}
 		if hd.Timeout || hd.Settled == nil {
 			p.Stalled = true
 			return p
